@@ -386,7 +386,53 @@ def annotate_tables():
            f"def annotateReadSites : Nat := {len([1 for _, _, k in sites if k not in ('decl', 'init')])}", "", "end MV", ""]
     return "\n".join(out), {"sites": [f"{r}:{l}:{k}" for r, l, k in sites], "ret_decision": src_var}
 
-TABLES = {"LexTables": lex_tables, "CoreTables": core_tables, "ConvertTables": convert_tables, "AnnotateTables": annotate_tables}
+
+# ------------------------------------------------------------------------------------------------
+# Order of class members (generate/convert/class.rs): position offsets and tie ranks
+# ------------------------------------------------------------------------------------------------
+def class_tables():
+    src = read("src/generate/convert/class.rs")
+    def off(pat, what):
+        m = re.search(pat, src, re.S)
+        if not m:
+            raise TranslateError(f"class.rs: position of {what} not in the expected shape")
+        return int(m.group(1) or 0)
+    fun_off = off(r"Core::FunDef \{ id, \.\. \} => \(i(?: \+ (\d+))?, Core::Id", "FunDef")
+    funop_off = off(r"Core::FunDefOp \{ op, \.\. \} => \(\s*i(?: \+ (\d+))?,", "FunDefOp")
+    var_off = off(r"Core::VarDef \{ var, \.\. \} => \(i(?: \+ (\d+))?, var", "VarDef")
+    other_off = off(r"_ => \(\s*i(?: \+ (\d+))?,\s*Core::Id \{\s*lit: String::from\(\"@\"\)", "other statements")
+    if fun_off != funop_off:
+        raise TranslateError("class.rs: FunDef and FunDefOp positions differ")
+    m = re.search(r"\.map\(\|\(pos, _\)\| \*pos \+ (\d+)\)\s*\.max\(\)\s*\.unwrap_or\((\d+)\)", src)
+    if not m:
+        raise TranslateError("class.rs: position of the synthesised constructor not in the expected shape")
+    init_after, init_default = int(m.group(1)), int(m.group(2))
+    m = re.search(r"let rank = \|stmt: &Core\| match stmt \{(.*?)\};", src, re.S)
+    ranks = {}
+    if m:
+        body = m.group(1)
+        pats = {"var": r"Core::VarDef \{ \.\. \} => (\d+),", "init": r"Core::FunDef \{ id, \.\. \} if id == function::python::INIT => (\d+),",
+                "fun": r"Core::FunDef \{ \.\. \} \| Core::FunDefOp \{ \.\. \} => (\d+),", "other": r"_ => (\d+),"}
+        for k, pat in pats.items():
+            mm = re.search(pat, body)
+            if not mm:
+                raise TranslateError(f"class.rs: rank of {k} not found")
+            ranks[k] = int(mm.group(1))
+        if not re.search(r"\.sorted_by_key\(\|\(pos, stmt\)\| \(\*pos, rank\(stmt\)\)\)", src):
+            raise TranslateError("class.rs: members are not sorted by (position, rank)")
+    else:
+        # no tie-breaking rank: every member has rank 0 (order of ties is the map's iteration order)
+        if not re.search(r"\.sorted_by_key\(\|\(pos, _\)\| \*pos\)", src):
+            raise TranslateError("class.rs: member sort not in a known shape")
+        ranks = {"var": 0, "init": 0, "fun": 0, "other": 0}
+    out = ["-- GENERATED by tools/translate.py from /repo/src/generate/convert/class.rs — do not edit", "namespace MV", "",
+           f"def classFunOffset : Nat := {fun_off}", f"def classVarOffset : Nat := {var_off}", f"def classOtherOffset : Nat := {other_off}",
+           f"def classInitAfterVar : Nat := {init_after}", f"def classInitDefault : Nat := {init_default}",
+           f"def rankVar : Nat := {ranks['var']}", f"def rankInit : Nat := {ranks['init']}", f"def rankOther : Nat := {ranks['other']}", f"def rankFun : Nat := {ranks['fun']}",
+           "", "end MV", ""]
+    return "\n".join(out), {"offsets": [fun_off, var_off, other_off], "init": [init_after, init_default], "ranks": ranks}
+
+TABLES = {"ClassTables": class_tables, "LexTables": lex_tables, "CoreTables": core_tables, "ConvertTables": convert_tables, "AnnotateTables": annotate_tables}
 
 
 def main(argv):
